@@ -263,30 +263,25 @@ func TestVerifRtx(t *testing.T) {
 		t.Fatalf("track not set up: pt=%d ssrc=%d", track.PayloadType(), track.SSRC())
 	}
 
-	for k, v := range vecs {
-		if k%200 == 0 {
-			tr.Reset(v.ID)
-		}
-		rng := rand.New(rand.NewSource(vkSeed()*1000003 + int64(v.Fill)*7919 + int64(v.ID)*104729)) //nolint:gosec
-		pkt := vrBuild(v, rng)
-		if len(pkt) != v.Len || len(pkt) > receiveMTU {
-			t.Fatalf("vector %d: built %d bytes, layout says %d", v.ID, len(pkt), v.Len)
-		}
-		_, _ = fmt.Fprintf(progress, "%d\n", v.ID)
-		feed <- pkt
-		waitReady(fmt.Sprint("vector ", v.ID)) // processed: queued for Read, or dropped
-
+	// one group = packets that are all on the repair stream before the application reads the first
+	// of them (a retransmission burst); most groups have one packet, every fourth has up to three
+	type sentPkt struct {
+		v   vrVec
+		pkt []byte
+	}
+	readOne := func(sp sentPkt, pos, size int) {
+		v, pkt := sp.v, sp.pkt
 		before := primaryReads.Load()
 		for i := range buf {
 			buf[i] = 0
 		}
 		n, att, rerr := track.Read(buf)
 		line := vkM{"ev": "rtx", "t": v.ID,
-			"sig": fmt.Sprintf("cc%d/x%d:%s:%d/pad%d/pl%s/m%d", v.CC, v.X, v.Prof, v.XL, v.Pad, vrPLName(v), v.M),
+			"sig":  fmt.Sprintf("cc%d/x%d:%s:%d/pad%d/pl%s/m%d", v.CC, v.X, v.Prof, v.XL, v.Pad, vrPLName(v), v.M),
 			"lay":  vkM{"cc": v.CC, "x": v.X, "prof": v.Prof, "xl": v.XL, "pad": v.Pad, "pl": v.PL, "plmax": v.PLMax, "m": v.M, "fill": v.Fill},
 			"in":   vrView(pkt),
 			"prim": vkM{"pt": vrPrimaryPT, "ssrc": fmt.Sprint(vrPrimarySSRC)}, // what the primary stream carries
-			"err":  "", "n": n,
+			"err":  "", "n": n, "burst": vkM{"pos": pos, "size": size},
 		}
 		if rerr != nil {
 			line["err"] = rerr.Error()
@@ -312,5 +307,41 @@ func TestVerifRtx(t *testing.T) {
 		}
 		tr.Emit(line)
 		vrFlush(tr)
+	}
+	maxBurst := vkEnvInt("VERIF_RTX_BURST", 3)
+	for k := 0; k < len(vecs); {
+		if k%200 == 0 || (k > 0 && k/200 != (k-1)/200) {
+			tr.Reset(vecs[k].ID)
+		}
+		size := 1
+		if (k/4)%4 == 3 {
+			// only packets that carry an OSN can wait in the queue (shorter ones are dropped at once)
+			for size < maxBurst && k+size < len(vecs) && (k+size)/200 == k/200 {
+				size++
+			}
+			for j := 0; j < size; j++ {
+				if vecs[k+j].PL < 2 {
+					size = 1
+					break
+				}
+			}
+		}
+		group := []sentPkt{}
+		for j := 0; j < size; j++ {
+			v := vecs[k+j]
+			rng := rand.New(rand.NewSource(vkSeed()*1000003 + int64(v.Fill)*7919 + int64(v.ID)*104729)) //nolint:gosec
+			pkt := vrBuild(v, rng)
+			if len(pkt) != v.Len || len(pkt) > receiveMTU {
+				t.Fatalf("vector %d: built %d bytes, layout says %d", v.ID, len(pkt), v.Len)
+			}
+			_, _ = fmt.Fprintf(progress, "%d\n", v.ID)
+			feed <- pkt
+			waitReady(fmt.Sprint("vector ", v.ID)) // processed: queued for Read, or dropped
+			group = append(group, sentPkt{v, pkt})
+		}
+		for j, sp := range group {
+			readOne(sp, j+1, size)
+		}
+		k += size
 	}
 }
